@@ -76,6 +76,18 @@ def cmp_exit(scn, res, m):
     return [] if res.exit == m["exit"] else [("exit", res.exit, m["exit"])]
 
 
+def cmp_exit_class(scn, res, m):
+    """success / failure only (a panic and an error exit are both failures)"""
+    return [] if (res.exit == 0) == (m["exit"] == 0) else [("exit-class", res.exit, m["exit"])]
+
+
+def cmp_errheight_if_reported(scn, res, m):
+    if m["exit"] == 0 or res.err_height() is None:
+        return []
+    a = res.err_height()
+    return [] if a == m.get("errheight") else [("error-height", a, m.get("errheight"))]
+
+
 def cmp_names(scn, res, m):
     a, b = final_names(res), sorted(m["files"])
     return [] if a == b else [("file-names", a, b)]
